@@ -26,9 +26,14 @@ def make_op(g, kind):
     if kind == "reindex":
         return ("reindex",)
     if kind == "remove_none":
-        return r.choice([("remove", nomatch, None), ("drop", "m3"), ("handle", "m3", ("remove_all",)), ("remove", one, "m3")])
+        return r.choice([("remove", nomatch, None), ("drop", "m3"), ("handle", "m3", ("remove_all",)), ("remove", one, "m3"),
+                         ("drop", ""), ("handle", "", ("remove_all",)), ("drop", ""), ("handle", "m3", ("remove", ("noop", "tags")))])
     if kind == "update_nochange":
-        return ("update", one, {"tags": ("static", {"id": str(j)})}, None)
+        return r.choice([("update", one, {"tags": ("static", {"id": str(j)})}, None),
+                         # unset_* given as ONE string that names no key, although each of its characters is a key of the stored points
+                         ("update", ("noop", "tags"), {"unset_tags": ["abk"], "unset_as_str": True}, None),
+                         ("update_all", {"unset_fields": ["ab"], "unset_as_str": True}),
+                         ("update_all", {"unset_tags": ["ba"], "unset_as_str": True, "unset_fields": ["ba"]})])
     if kind == "update_nomatch":
         return r.choice([("update", nomatch, {"fields": ("static", {"a": 5})}, None), ("handle", "m3", ("update_all", {"fields": ("static", {"a": 5})}))])
     if kind == "update_all_same":
